@@ -859,7 +859,7 @@ def generic_replay(sc):
         if isinstance(cctx.inner_exc, BaseException):
             e = cctx.inner_exc
         site = _raise_site(e) if isinstance(e, Exception) else None
-        if sc.get("expect_exception") and site is not None and type(e).__name__ == sc["expect_exception"]:
+        if sc.get("expect_exception") and site is not None:  # (numpy may raise another type on plain numbers than on symbolic values)
             shown = {k: v for k, v in list(cctx.inputs.items())[:24]}
             return True, (f"harness {h.name} re-run on the real code with plain python numbers (shims off): the code under analysis raises "
                           f"{type(e).__name__}: {str(e)[:200]} at {site[0]}:{site[1]} ({site[2]}) on an input the harness assumes valid; inputs {shown}")
